@@ -8,6 +8,7 @@ import (
 	"bytes"
 	"encoding/json"
 	"fmt"
+	"hash/fnv"
 	"io"
 	"math"
 	"sort"
@@ -92,8 +93,8 @@ func (c *chunkReader) Read(p []byte) (int, error) {
 var modeCounter int64
 var allCuts bool
 
-// readerModes: the plain reader, the one-byte reader and (for every 32nd case,
-// or always in the thorough tier) one reader per cut offset.
+// readerModes: the plain reader, the one-byte reader and (for the files whose content hash is 0 mod 32 - a
+// fixed, schedule-independent 1/32 of the cases - or always in the thorough tier) one reader per cut offset.
 func readerModes(r *ev.Run, data []byte) []func() (io.Reader, string) {
 	out := []func() (io.Reader, string){
 		func() (io.Reader, string) { return bytes.NewReader(data), "" },
@@ -101,7 +102,10 @@ func readerModes(r *ev.Run, data []byte) []func() (io.Reader, string) {
 			return &chunkReader{data: data, one: true}, "/short-reads(1 byte per Read)"
 		},
 	}
-	if allCuts || atomic.AddInt64(&modeCounter, 1)%32 == 0 {
+	atomic.AddInt64(&modeCounter, 1)
+	hh := fnv.New32a()
+	hh.Write(data)
+	if allCuts || hh.Sum32()%32 == 0 {
 		for k := 1; k < len(data); k++ {
 			k := k
 			out = append(out, func() (io.Reader, string) {
